@@ -158,7 +158,7 @@ pub struct Case {
 // ------------------------------------------------------------------------------------------
 
 fn text(max_chars: usize) -> impl Strategy<Value = String> + Clone {
-	pvec(prop_oneof![6 => (0x20u32..0x7f), 1 => any::<char>().prop_map(|c| c as u32), 1 => Just(0xe9u32), 1 => Just(0x1f600u32)], 0..max_chars).prop_map(|v| {
+	pvec(prop_oneof![6 => 0x20u32..0x7f, 1 => any::<char>().prop_map(|c| c as u32), 1 => Just(0xe9u32), 1 => Just(0x1f600u32)], 0..max_chars).prop_map(|v| {
 		let mut s = String::new();
 		for c in v {
 			let ch = char::from_u32(c).unwrap_or('?');
@@ -200,7 +200,7 @@ fn timestamp() -> impl Strategy<Value = u64> + Clone {
 		32 => any::<u64>().prop_map(|v| v % (MAX_TIMESTAMP + 1)),
 		// 32^k boundaries of the 7-symbol big-endian field
 		16 => (0u32..7, 0u64..3).prop_map(|(k, d)| (32u64.pow(k) + d).saturating_sub(1).min(MAX_TIMESTAMP)),
-		1 => (MAX_TIMESTAMP + 1..MAX_TIMESTAMP + 1000),
+		1 => MAX_TIMESTAMP + 1..MAX_TIMESTAMP + 1000,
 	]
 }
 
